@@ -747,7 +747,7 @@ def _sum_mono(bound, m):
             users = [(a, e) for a, e, s in dep if i in s]
             if len(users) == 1:
                 a, e = users[0]
-                if a[0] == "var" and a[1] == SIMPLEX["var"] and e == 1 and len(a[2]) == 2 and a[2][1] == i and a[2][0] != i:
+                if a[0] == "var" and a[1] == SIMPLEX["var"] and e == 1 and a[2] and a[2][-1] == i and i not in a[2][:-1]:
                     rest = [(x, ee) for x, ee in factors if not (x == a and ee == e)]
                     return mk_sum([(j, dd) for j, dd in bound if j != i], Poly({mono_norm(rest)[0]: Fr(1)}))
     # simplex rule through a nested sum over samples: sum_k Sum_n[y[n,k] * f(n)] = Sum_n[f(n)]
@@ -760,7 +760,7 @@ def _sum_mono(bound, m):
                 k, a, e = users[0]
                 inner_users = [(x, ex) for x, ex in a[2] if i in atom_indices(x)]
                 if len(inner_users) == 1 and inner_users[0][0][0] == "var" and inner_users[0][0][1] == SIMPLEX["var"] and inner_users[0][1] == 1 \
-                        and inner_users[0][0][2][1] == i and inner_users[0][0][2][0] in {b for b, _ in a[1]}:
+                        and len(inner_users[0][0][2]) == 2 and inner_users[0][0][2][1] == i and inner_users[0][0][2][0] in {b for b, _ in a[1]}:
                     ren = {b: fresh(dd) for b, dd in a[1]}
                     body = subst(Poly({a[2]: Fr(1)}), ren)
                     rest = Poly({tuple(factors[:k] + factors[k + 1:]): Fr(1)}) if len(factors) > 1 else Poly.const(1)
@@ -1134,4 +1134,9 @@ def _replace_tensor_atom(a, name, fn):
         return mk_exp(replace_tensor(Poly.thaw(a[1]), name, fn))
     if k in ("step", "stepge"):
         return mk_step(replace_tensor(Poly.thaw(a[1]), name, fn), strict=(k == "step"))
+    if k == "fn":
+        args = tuple(x if isinstance(x, str) else replace_tensor(Poly.thaw(x), name, fn).frozen() for x in a[2])
+        if a[1] == "emd2" and len(args) >= 2 and args[0] == args[1]:
+            return Poly()           # the transport cost between identical distributions is zero
+        return Poly.atom(("fn", a[1], args) + tuple(a[3:]))
     raise Unsupported(f"replace_tensor in atom {k}")
